@@ -3,12 +3,13 @@
 EXTENDS FoSampleMd, Json, SequencesExt
 CONSTANTS MaxEntries, OutFile
 
-Files == {"a.fo", "foo.fo", "leaf.fo", "x.y.fo", "nofo", "gone.fo", "p%d.fo", "dir.fo"}      \* gone.fo does not exist, dir.fo is a directory
+Files == {"a.fo", "foo.fo", "leaf.fo", "x.y.fo", "nofo", "gone.fo", "p%d.fo", "dir.fo", "w.fo"}      \* gone.fo does not exist, dir.fo is a directory
 Bases == [f \in Files |-> CASE f = "a.fo" -> "a" [] f = "foo.fo" -> "foo" [] f = "leaf.fo" -> "leaf"
-                            [] f = "x.y.fo" -> "x.y" [] f = "nofo" -> "nofo" [] f = "gone.fo" -> "gone" [] f = "p%d.fo" -> "p%d" [] f = "dir.fo" -> "dir"]
+                            [] f = "x.y.fo" -> "x.y" [] f = "nofo" -> "nofo" [] f = "gone.fo" -> "gone" [] f = "p%d.fo" -> "p%d" [] f = "dir.fo" -> "dir" [] f = "w.fo" -> "w"]
 \* content ids (the bytes live in the harness): every readable file gets a different kind of content
 FS == [f \in Files \ {"gone.fo", "dir.fo"} |-> CASE f = "a.fo" -> "plain" [] f = "foo.fo" -> "nonl" [] f = "leaf.fo" -> "fences"
-                                       [] f = "x.y.fo" -> "hashes" [] f = "nofo" -> "empty" [] f = "p%d.fo" -> "percent"]
+                                       [] f = "x.y.fo" -> "hashes" [] f = "nofo" -> "empty" [] f = "p%d.fo" -> "percent"
+                                       [] f = "w.fo" -> "crlf"]       \* (CR LF line ends, a lone CR: bytes are bytes)
 Rests == {<<FALSE, "">>, <<TRUE, "T">>, <<TRUE, "Two  words here">>, <<TRUE, " lead">>, <<TRUE, "">>,
           <<TRUE, "100% of %d and %s">>, <<TRUE, "a {b} `c` #x *y* <z> [l](m)">>}         \* titles are text, whatever characters they contain
 Blank == [blank |-> TRUE, file |-> "", sp |-> FALSE, rest |-> ""]
